@@ -23,6 +23,12 @@ RULE = ('metamorphic + stream-conservation monitor: base files with long '
         'position must be the end of the section just returned. '
         'Non-trivial = file has >= 3 content sections; distinct = (file, '
         'padding / block size) by construction.')
+RULE += (
+         ' Also: header lines of 1 MiB + 70001 (thorough: up to 5 MiB), gzip'
+         ' / bz2 / xz streams, and 2-4 readers at work at once (seeded '
+         'scheduler, interleaved generators). Process axes (DESIGN 2.8): 2 '
+         'of 16 shards run under python -O, 4 of 16 after a hostile warm-up '
+         'of the library.')
 FLOOR = {'quick': 8000, 'thorough': 200000}
 REQUIRED_REACH = ['reader.py:']
 REQUIRED_COUNTERS = ['paddings_checked', 'stream_offsets_checked',
